@@ -163,6 +163,18 @@ def gen_factory(tier):
                 yield Case("c%d" % n, [op_ctx(), op_run(PRELUDE), op_run(p), op_out(), op_run(PROBE), op_out()],
                            {"kind": "cond", "e": a, "want": ka, "stmt": "if-reset", "untyped": False})
                 n += 1
+        # 3c. in-place methods whose receiver is the literal null work on a value of their own: the literal stays null
+        nullrecv = [
+            ('print null.concat("a"); print null.concat("b"); for k in 1 to 3 loop print null.concat("c"); end loop; print null;', "a\nb\nc\nc\nc\nnull\n"),
+            ("print null.concat(65); for k in 1 to 2 loop print null.concat(66).concat(67); end loop; print isnull(null);", "A\nBC\nBC\nTRUE\n"),
+            ('function fnc(s) return string is begin return null.concat(s); end; print fnc("p"); print fnc("q"); print fnc("r");', "p\nq\nr\n"),
+            ('function fnl() return boolean is begin x = null.concat("z"); return isnull(null); end; print fnl(); print fnl();', "TRUE\nTRUE\n"),
+            ('for k in 1 to 2 loop print (null).concat("w"); print isnull((null)); end loop;', "w\nTRUE\nw\nTRUE\n"),
+        ]
+        for p, want in nullrecv:
+            yield Case("c%d" % n, [op_ctx(), op_run(PRELUDE), op_run(p), op_out(), op_run(PROBE), op_out()],
+                       {"kind": "cond", "e": p, "want": want, "stmt": "literal-output", "untyped": False})
+            n += 1
         # 4. relational operators with a null side
         for tx, (nnx, nlx) in REL.items():
             for ty, (nny, nly) in REL.items():
@@ -220,14 +232,16 @@ def check(case, res):
                 if out != want:
                     vs.append(Violation("pair:interference", "%s printed %r, expected %r" % (m["e"], out, want), case))
             else:
-                if m["stmt"] == "while-reset":
+                if m["stmt"] == "literal-output":
+                    want = m["want"]
+                elif m["stmt"] == "while-reset":
                     want = "T\nT\nT\nT\nE\n" if m["want"] == "T" else "T\nE\n"
                 elif m["stmt"] == "if-reset":
                     want = {"T": "T\nT\nT\nE\n", "F": "T\nF\nt\nE\n", "N": "T\nF\nF\nE\n"}[m["want"]]
                 else:
                     want = "T\nT\nE\n" if m["want"] == "T" else ("F\nF\nE\n" if m["stmt"] == "if" else "E\n")
                 if out != want:
-                    vs.append(Violation("cond:%s" % m["want"], "condition %s gave %r, expected %r" % (m["e"], out, want), case))
+                    vs.append(Violation("cond:%s" % (m["want"] if m["stmt"] != "literal-output" else "null-literal-receiver"), "condition %s gave %r, expected %r" % (m["e"], out, want), case))
         if probe_run.get("r") != "ok" or probe_out != PROBE_EXPECT:
             vs.append(Violation("after:%s" % kind, "after %s the probes gave %r %r, expected %r" % (m["e"], probe_run, probe_out, PROBE_EXPECT), case))
         return vs, True
